@@ -157,6 +157,73 @@ pub(crate) fn run(seed: u64, n: u64, out: &mut Out) {
     }
     boundary_messages(&mut rng, n, out);
     fork_histories(&mut rng, n, out);
+    poisoned_cache(&mut rng, n, out);
+}
+
+/// C06 below the finalized check point: one proven peer delivers filter hashes for the cached range that are NOT the chain's
+/// (a hash chain over filters of its own making), then block filters that fit them.  Nothing of this may be acted on: every
+/// hash between two finalized check points has to chain up to the upper one.
+fn poisoned_cache(rng: &mut Rng, n: u64, out: &mut Out) {
+    use ckb_types::utilities::calc_filter_hash;
+    let consensus = dummy_consensus();
+    let interval = 10u64;
+    for world in 0..(n / 40).max(1) {
+        let pool: Vec<packed::Script> = (1..=3u8).map(|i| pool_script(9, &[i])).collect();
+        let mut gen = TxGen::new(pool.clone(), world * 100_000, 1);
+        let len = rng.range(34, 48);
+        let bc = BodyChain::new(rng, flat_plan(8, 8, 5), len, 35_000 + world, &mut gen);
+        let tip = bc.tip();
+        let mut net = Net::new(&bc.chain, &consensus, 5, 1, interval);
+        let fin = rng.range(1, ((len - 1) / interval).min(3));
+        let cps: Vec<packed::Byte32> = (1..=fin).map(|i| bc.fhashes[(i * interval) as usize].clone()).collect();
+        net.storage.update_check_points(1, &cps);
+        net.storage.update_max_check_point_index(fin as u32);
+        net.restart();
+        let peer = PeerIndex::new(1);
+        if !net.prove_peer(peer, &bc.chain, tip) { continue; }
+        net.storage.update_filter_scripts(pool.iter().map(|s| crate::storage::ScriptStatus { script: s.clone(), script_type: crate::storage::ScriptType::Lock, block_number: 0 }).collect(), crate::storage::SetScriptsCommand::All);
+        // filter syncing stands at the lower end of a cached range
+        let ci = rng.below(fin);
+        let cn = ci * interval;
+        net.storage.update_min_filtered_block_number(cn);
+        net.peers.update_min_filtered_block_number(cn);
+        net.storage.update_block_number(cn);
+        // the forger's filters: the previous block's filter everywhere (so nothing of block n's own activity matches), and its hash chain
+        let upto = match rng.below(3) { 0 => cn + interval, 1 => cn + interval + rng.range(1, 3), _ => cn + rng.range(2, interval - 1) }.min(tip);
+        let mut parent = bc.fhashes[cn as usize].clone();
+        let mut fake_filters: Vec<packed::Bytes> = Vec::new();
+        let mut fake_hashes: Vec<packed::Byte32> = Vec::new();
+        for nr in (cn + 1)..=upto {
+            let f = bc.filters[0].clone();
+            let h: packed::Byte32 = calc_filter_hash(&parent, &f).pack();
+            let _ = nr;
+            fake_filters.push(f);
+            fake_hashes.push(h.clone());
+            parent = h;
+        }
+        let r1 = net.fp_recv(peer, hashes_message(cn + 1, &bc.fhashes[cn as usize], &fake_hashes));
+        let (_, cached_after) = net.peers.get_cached_block_filter_hashes();
+        let count = (fake_filters.len() as u64).min(interval) as usize;
+        let content = packed::BlockFilters::new_builder().start_number((cn + 1).pack())
+            .block_hashes((0..count).map(|j| bc.chain.headers[(cn + 1) as usize + j].hash()).collect::<Vec<_>>().pack())
+            .filters(fake_filters[..count].to_vec().pack()).build();
+        let r2 = net.fp_recv(peer, packed::BlockFilterMessage::new_builder().set(content).build().as_bytes());
+        let min_after = net.storage.get_min_filtered_block_number();
+        let mut problems: Vec<String> = Vec::new();
+        if r1.panicked || r2.panicked { problems.push(format!("[C10-filter-panic] the handler panicked: {}", super::last_panic())); }
+        if let Some(j) = cached_after.iter().enumerate().position(|(j, h)| bc.fhashes.get((cn + 1) as usize + j) != Some(h)) {
+            if upto >= cn + interval {
+                problems.push(format!("[C06-unanchored-cached-hashes] a cached filter hash (block {}) that is not the chain's was accepted although the batch reaches the next finalized check point (block {})", cn + 1 + j as u64, cn + interval));
+            }
+        }
+        if min_after > cn {
+            problems.push(format!("[C06-unauthentic-filter-accepted] filter progress moved from {} to {} over filters of the peer's own making, checked against filter hashes only that peer had delivered", cn, min_after));
+        }
+        let oracle = if problems.is_empty() { Ok(()) } else { Err(problems.join(" || ")) };
+        out.case(&format!("poison-{}", world), &["poisoned-cached-hashes"], "(VN 1)", &Val::n(1), oracle,
+            &format!("world {}: chain {} blocks, finalized index {}, filter syncing at block {} (cached range ({}, {}]); the proven peer sends {} forged filter hashes from {} (bans {:?}), then {} forged filters (bans {:?}); cached afterwards: {} hashes, min filtered {}",
+                world, len, fin, cn, cn, cn + interval, fake_hashes.len(), cn + 1, r1.bans, count, r2.bans, cached_after.len(), min_after));
+    }
 }
 
 /// every filter-protocol message with boundary numbers and short / empty vectors, in a world with finalized check points,
@@ -217,9 +284,12 @@ fn boundary_messages(rng: &mut Rng, n: u64, out: &mut Out) {
                 _ => { let mut b: Vec<u8> = (0..rng.range(0, 60)).map(|_| rng.below(256) as u8).collect(); if rng.chance(1, 2) && b.len() >= 4 { b[0] = (b.len() as u8).min(60); b[1] = 0; b[2] = 0; b[3] = 0; }
                        ("random-bytes", P2pBytes::from(b)) }
             };
-            let r = net.fp_recv(peer, data.clone());
+            // one message in six goes to the sync protocol instead (it only knows SendBlock; everything else must be ignored or banned)
+            let to_sync = rng.chance(1, 6);
+            let r = if to_sync { net.sp_recv(peer, data.clone()) } else { net.fp_recv(peer, data.clone()) };
+            let what = if to_sync { "bytes-to-sync-protocol" } else { what };
             let v = Val::l(vec![Val::n(if r.panicked { 3 } else { 0 })]);
-            let oracle = if r.panicked { Err(format!("[C10-filter-panic] {} made the filter protocol handler panic: {}", what, super::last_panic())) } else { Ok(()) };
+            let oracle = if r.panicked { Err(format!("[C10-filter-panic] {} made the {} protocol handler panic: {}", what, if to_sync { "sync" } else { "filter" }, super::last_panic())) } else { Ok(()) };
             let hex: String = data.iter().take(48).map(|b| format!("{:02x}", b)).collect();
             out.case(&format!("fp-{}", idx), &["filter-protocol-boundary", what], "(VL [VN 0])", &v, oracle, &format!("{} ({} bytes: {}...) to a proven peer", what, data.len(), hex));
             idx += 1;
